@@ -93,7 +93,8 @@ impl expr::Expr
 				let lhs_size = lhs.get_static_size(provider)?;
 				let rhs_size = rhs.get_static_size(provider)?;
 
-				Some(lhs_size + rhs_size)
+				// (a sum that does not fit has no static size)
+				lhs_size.checked_add(rhs_size)
 			}
 
 			expr::Expr::BinaryOp(..) => None,
